@@ -39,7 +39,7 @@ class Ctx:
     def generated_modules(self):
         from .emit_lean import LeanEmitter
         from .ground import lemmas_lean
-        return {"HV.Spec": LeanEmitter().emit_all(), "HV.Consts": self.consts.consts_lean(),
+        return {"HV.Sorts": LeanEmitter().emit_sorts(), "HV.Spec": LeanEmitter().emit_all(), "HV.Consts": self.consts.consts_lean(),
                 "HV.RunLemmas": lemmas_lean(list(self.lemmas.values()))}
 
 
